@@ -9,6 +9,10 @@
 //   - once counters stop growing and sends succeed (flush suffix: report->sent until the agent says
 //     "no data"), per signal usage in accepted payloads == counter growth (nothing lost).
 //
+// Third scenario: the same ledger with ServerToAgent messages that are not about usage (agent_identification = a new
+// instance uid, twice over; a malformed uid; own-metrics connection settings; a custom message; a remote config without
+// a config map) delivered through the REAL Agent.onMessage anywhere between readings and report attempts.
+//
 // Payloads are decoded with pmetric.JSONUnmarshaler from the bytes handed to SendCustomMessage.
 package main
 
@@ -32,17 +36,57 @@ import (
 )
 
 type event struct {
-	Op  string // "read" | "report"
+	Op  string // "read" | "report" | "msg"
 	Sig int    // read: which signal
 	D   int    // read: growth since the previous reading of that signal
 	Out string // report: the environment's answers, '-' separated (ok | fail | pend-ok | pend-fail | pend-pend)
+	// msg: which ServerToAgent message the OpAMP server sends (see serverMessage)
 }
 
 func (e event) String() string {
-	if e.Op == "read" {
+	switch e.Op {
+	case "read":
 		return fmt.Sprintf("read(%s,+%d)", signals[e.Sig], e.D)
+	case "msg":
+		return "server-msg(" + e.Out + ")"
 	}
 	return "report->" + e.Out
+}
+
+// The ServerToAgent messages of the third scenario, as the OpAMP client hands them to Callbacks.OnMessage.
+// None of them says anything about usage: whatever the agent does with them, the ledger must still balance.
+var serverMessageKinds = []string{
+	"agent_identification:A", // the server assigns a new instance uid
+	"agent_identification:B", // ... and another one (so that a history can re-identify the agent more than once, to a new or to the same uid)
+	"agent_identification:malformed-uid",
+	"own_metrics_connection_settings",
+	"custom_message",
+	"remote_config:no-config-map",
+}
+
+// two well-formed (16 byte) instance uids
+var (
+	uidA = [16]byte{0x01, 0x94, 0xfd, 0xc2, 0xfa, 0x2f, 0x7c, 0xc0, 0x81, 0xd3, 0xff, 0x12, 0x04, 0x5b, 0x73, 0xc8}
+	uidB = [16]byte{0x01, 0x94, 0xfd, 0xc2, 0xfa, 0x2f, 0x7c, 0xc0, 0x81, 0xd3, 0xff, 0x12, 0x04, 0x5b, 0x73, 0xc9}
+)
+
+func serverMessage(kind string) *types.MessageData {
+	switch kind {
+	case "agent_identification:A":
+		return &types.MessageData{AgentIdentification: &protobufs.AgentIdentification{NewInstanceUid: uidA[:]}}
+	case "agent_identification:B":
+		return &types.MessageData{AgentIdentification: &protobufs.AgentIdentification{NewInstanceUid: uidB[:]}}
+	case "agent_identification:malformed-uid":
+		return &types.MessageData{AgentIdentification: &protobufs.AgentIdentification{NewInstanceUid: []byte{1, 2, 3}}}
+	case "own_metrics_connection_settings":
+		return &types.MessageData{OwnMetricsConnSettings: &protobufs.TelemetryConnectionSettings{DestinationEndpoint: "http://metrics.invalid:4318"}}
+	case "custom_message":
+		return &types.MessageData{CustomMessage: &protobufs.CustomMessage{Capability: "io.honeycomb.verif", Type: "ack", Data: []byte("{}")}}
+	case "remote_config:no-config-map":
+		return &types.MessageData{RemoteConfig: &protobufs.AgentRemoteConfig{ConfigHash: []byte{7}}}
+	}
+	ev.Harness("unknown server message kind %s", kind)
+	return nil
 }
 
 var signals = agent.VerifUsageSignals() // traces, logs
@@ -145,7 +189,10 @@ func clip(n, c int) int {
 	return n
 }
 
-func run(h []event) result {
+// run executes one history on a fresh agent. resample selects how the flush suffix reads "counters stop growing":
+// false = nothing samples the counters any more; true = the health-check loop keeps sampling them (one more reading
+// per signal, growth 0) before the successful reports.
+func run(h []event, resample bool) result {
 	clk := clockwork.NewFakeClockAt(t0)
 	cl := &scriptClient{}
 	a := agent.VerifNewUsageAgent(cl, clk)
@@ -155,6 +202,15 @@ func run(h []event) result {
 	runFails, maxFails := 0, 0          // consecutive failed attempts (current run, longest run)
 	seenOffers := 0
 	lastOutcome := "none" // outcome of the last report attempt of the history
+	uid0 := a.VerifInstanceID()
+	// sigTail tells whether the failing history had the server re-identify the agent (third scenario only); a function
+	// of the canonical state
+	sigTail := func() string {
+		if a.VerifInstanceID() == uid0 {
+			return ""
+		}
+		return ":after-agent_identification"
+	}
 	// backwards: a cumulative reading went DOWN (a counter source that was reset). The ledger says nothing then;
 	// what remains is the first clause: no payload offered to the client carries negative usage.
 	backwards := false
@@ -178,7 +234,7 @@ func run(h []event) result {
 		}
 		for i, s := range signals {
 			if sent[i] > int64(cum[i]) && !backwards {
-				return &seqx.Failure{Sig: fmt.Sprintf("ledger:double-count:last-attempt=%s", lastOutcome),
+				return &seqx.Failure{Sig: fmt.Sprintf("ledger:double-count:last-attempt=%s%s", lastOutcome, sigTail()),
 					What: fmt.Sprintf("history %v, at %s: signal %s: successfully sent reports carry %d but the counter only grew by %d", h, step, s, sent[i], cum[i])}
 			}
 		}
@@ -194,6 +250,10 @@ func run(h []event) result {
 			}
 			cum[e.Sig] += e.D
 			a.VerifAddUsage(signals[e.Sig], float64(cum[e.Sig]))
+		case "msg":
+			// the OpAMP client calls Callbacks.OnMessage (= Agent.onMessage) on its receive goroutine; here between two
+			// steps of the usage loops
+			a.VerifOnMessage(serverMessage(e.Out))
 		case "report":
 			cl.script = strings.Split(e.Out, "-")
 			before := len(cl.offers)
@@ -263,7 +323,7 @@ func run(h []event) result {
 		for i := range signals {
 			fmt.Fprintf(&sb, "|zero=%v,owed=%d", cum[i] == 0, int64(cum[i])-sent[i])
 		}
-		fmt.Fprintf(&sb, "|fails=%d/%d", clip(runFails, 3), clip(maxFails, 3))
+		fmt.Fprintf(&sb, "|fails=%d/%d|uid=%s", clip(runFails, 3), clip(maxFails, 3), a.VerifInstanceID())
 		canon = sb.String()
 	}
 	owed := int64(0)
@@ -276,6 +336,11 @@ func run(h []event) result {
 	}
 
 	// flush suffix: counters stop growing, every send succeeds, until the agent has nothing to report
+	if resample {
+		for i, s := range signals {
+			a.VerifAddUsage(s, float64(cum[i]))
+		}
+	}
 	flushes := 0
 	for ; flushes < len(h)+3; flushes++ {
 		cl.script = []string{"ok"}
@@ -290,7 +355,7 @@ func run(h []event) result {
 	}
 	for i, s := range signals {
 		if sent[i] != int64(cum[i]) && !backwards {
-			res.fail = &seqx.Failure{Sig: fmt.Sprintf("ledger:lost:longest-run-of-failed-attempts=%d", clip(maxFails, 2)),
+			res.fail = &seqx.Failure{Sig: fmt.Sprintf("ledger:lost:longest-run-of-failed-attempts=%d%s", clip(maxFails, 2), sigTail()),
 				What: fmt.Sprintf("after %v and then %d successful report(s) with nothing left to report: signal %s counter grew by %d but successfully sent reports carry only %d (%d lost for good; longest run of consecutive failed attempts: %d)",
 					h, flushes, s, cum[i], sent[i], int64(cum[i])-sent[i], maxFails)}
 			return res
@@ -346,7 +411,7 @@ func main() {
 		Name:    "usage-ledger",
 		Enabled: func(h []event) []event { return alphabet },
 		Exec: func(h []event) (string, string, *seqx.Failure) {
-			res := run(h)
+			res := run(h, false)
 			if res.nontrivial != "" {
 				r.Distinct("distinct_nontrivial", res.nontrivial)
 			}
@@ -377,7 +442,7 @@ func main() {
 			return alphabet
 		},
 		Exec: func(h []event) (string, string, *seqx.Failure) {
-			res := run(h)
+			res := run(h, false)
 			c := res.canon
 			if c != "" {
 				// the main scenario's key stores the tracker's mirror of the readings relative to them (shift invariance
@@ -396,15 +461,51 @@ func main() {
 		},
 		MaxDepth: ev.Pick(r, 7, 9), Workers: 16,
 	})
+	// third scenario: ServerToAgent messages that are not about usage arrive between readings and report attempts
+	// (Callbacks.OnMessage = the real Agent.onMessage -> updateAgentIdentity / updateRemoteConfig): the ledger of the
+	// first scenario must balance all the same. The flush suffix lets the health-check loop sample the (unchanged)
+	// counters once more before the successful reports, so that usage an implementation re-derives from the counters
+	// after a message is not called lost.
+	withMsgs := append([]event{}, alphabet...)
+	for _, k := range serverMessageKinds {
+		withMsgs = append(withMsgs, event{Op: "msg", Out: k})
+	}
+	msgDepth := ev.Pick(r, 9, 11)
+	seqx.Explore(r, seqx.Scenario[event]{
+		Name:    "usage-ledger-with-server-messages",
+		Enabled: func(h []event) []event { return withMsgs },
+		Exec: func(h []event) (string, string, *seqx.Failure) {
+			res := run(h, true)
+			nmsg, nident := 0, 0
+			for _, e := range h {
+				if e.Op == "msg" {
+					nmsg++
+					if e.Out == "agent_identification:A" || e.Out == "agent_identification:B" {
+						nident++
+					}
+				}
+			}
+			if res.fail == nil && nident > 0 {
+				r.Distinct("distinct_histories_with_agent_identification", fmt.Sprintf("n=%d,%s", clip(nident, 3), res.canon))
+			}
+			return res.canon, fmt.Sprintf("%s,msgs=%d,idents=%d", res.outcome, clip(nmsg, 1), clip(nident, 2)), res.fail
+		},
+		MaxDepth: msgDepth, Workers: 16,
+		// every history of length <= 4 (quick; 17^4) / <= 5 (thorough; 17^5) is executed whatever the canonical key says
+		NoMergeDepth: ev.Pick(r, 3, 4),
+	})
 	r.Set("evaluations", r.Count("transitions"))
 	if r.NDistinct("distinct_nontrivial") == 0 {
 		r.Set("distinct_nontrivial", 0) // exploration was cut at a shallow violation
 	}
 	r.Set("rule", "per signal: sum of datapoints in payloads the OpAMP client accepted <= counter growth at every step, == counter growth after the flush suffix (successful reports until 'no data'); no payload offered to the client has a negative datapoint")
-	r.Set("bounds", map[string]any{"signals": signals, "growth_per_reading": []int{0, 1, 5}, "report_outcomes": []string{"ok", "fail", "pend-ok", "pend-fail", "pend-pend"}, "depth": depth})
+	r.Set("bounds", map[string]any{"signals": signals, "growth_per_reading": []int{0, 1, 5}, "report_outcomes": []string{"ok", "fail", "pend-ok", "pend-fail", "pend-pend"}, "depth": depth,
+		"server_messages": serverMessageKinds, "depth_with_server_messages": msgDepth})
 	r.Assume("'still waiting to be sent' is read in the weakest way: whatever the agent delivers when counters stop growing and it keeps reporting successfully until it says it has no data")
 	r.Assume("a payload counts as successfully sent iff SendCustomMessage returned (closed channel, nil); ErrCustomMessagePending means the offered payload was not taken")
 	r.Assume("readings are fed through usageTracker.Add directly (cumulative, non-decreasing); the inline metrics.Get->Add body of Agent.healthCheck is trusted")
 	r.Assume("canonical state = every float map of the real tracker (the one mirroring the cumulative readings stored relative to them: Add only uses data-last and data==0, and a non-zero counter never returns to 0) + per-signal (counter==0, growth-sent) + clipped failed-attempt run lengths (they only select the violation signature)")
+	r.Assume("server messages are delivered by calling the registered Callbacks.OnMessage (Agent.onMessage) between two steps of the usage loops, on the harness goroutine (the OpAMP client's receive goroutine is not modelled; interleavings inside Add/NewReport are not part of this check); messages with a non-empty remote config map (a configuration reload) are out of this check's alphabet")
+	r.Assume("third scenario: 'counters stop growing' in the flush suffix = one more sampling of every signal with growth 0, then successful reports until 'no data'; the canonical state additionally holds the agent's instance uid")
 	r.Finish()
 }
